@@ -33,6 +33,14 @@ pub fn stress_tick() -> bool {
 pub fn note_allocated(n: usize, limit: usize) {
     PEAK_ALLOCATED.fetch_max(n, Ordering::Relaxed);
     if n > limit {
+        if std::env::var_os("GLUON_VERIF_BACKTRACE").is_some() {
+            eprintln!(
+                "[verif] heap holds {} bytes, limit {}\n{}",
+                n,
+                limit,
+                std::backtrace::Backtrace::force_capture()
+            );
+        }
         LIMIT_BREACHES.fetch_add(1, Ordering::Relaxed);
         MAX_OVER_LIMIT.fetch_max(n - limit, Ordering::Relaxed);
     }
